@@ -52,6 +52,10 @@ func (t *trans) expr(e ast.Expr) string {
 		switch v.Op {
 		case token.ADD, token.SUB, token.MUL, token.QUO, token.REM:
 			return "(" + t.expr(v.X) + " " + op + " " + t.expr(v.Y) + ")"
+		case token.AND:
+			return "(" + t.expr(v.X) + " &&& " + t.expr(v.Y) + ")"
+		case token.OR:
+			return "(" + t.expr(v.X) + " ||| " + t.expr(v.Y) + ")"
 		case token.LSS, token.GTR, token.LEQ, token.GEQ:
 			return "(" + t.expr(v.X) + " " + op + " " + t.expr(v.Y) + ")"
 		case token.EQL:
@@ -150,11 +154,23 @@ func (t *trans) stmts(l []ast.Stmt) string {
 // translateFunc renders `def <leanName> (params… : Nat) : Nat := …`, or a definition of type Unit (which makes the
 // tie theorems fail to elaborate) when the function is missing or outside the subset
 func translateFunc(fd *ast.FuncDecl, leanName string, globals map[string]string) string {
+	return translateFuncT(fd, leanName, globals, "Nat")
+}
+
+// translateFuncT: result type "Nat" or "Bool" (a returned comparison is decided)
+func translateFuncT(fd *ast.FuncDecl, leanName string, globals map[string]string, resType string) string {
 	if fd == nil || fd.Body == nil {
 		return fmt.Sprintf("def %s : Unit := ()  -- function not found\n", leanName)
 	}
 	t := &trans{globals: globals}
 	var params []string
+	if fd.Recv != nil {
+		for _, f := range fd.Recv.List {
+			for _, n := range f.Names {
+				params = append(params, n.Name)
+			}
+		}
+	}
 	for _, f := range fd.Type.Params.List {
 		for _, n := range f.Names {
 			params = append(params, n.Name)
@@ -165,5 +181,41 @@ func translateFunc(fd *ast.FuncDecl, leanName string, globals map[string]string)
 		return fmt.Sprintf("def %s : Unit := ()  -- outside the translated subset: %v\n", leanName, t.err)
 	}
 	params = append(params, t.used...)
+	if resType == "Bool" {
+		return fmt.Sprintf("def %s (%s : Nat) : Bool :=\n  decide (%s)\n", leanName, strings.Join(params, " "), body)
+	}
 	return fmt.Sprintf("def %s (%s : Nat) : Nat :=\n  %s\n", leanName, strings.Join(params, " "), body)
+}
+
+// translateConsts renders integer constants of the form `Name = T(<int literal>)` or `Name = <int literal>` of one file
+func translateConsts(f *file, names []string, prefix string) string {
+	vals := map[string]string{}
+	for _, d := range f.f.Decls {
+		gd, ok := d.(*ast.GenDecl)
+		if !ok || gd.Tok != token.CONST {
+			continue
+		}
+		for _, sp := range gd.Specs {
+			vs, ok := sp.(*ast.ValueSpec)
+			if !ok || len(vs.Names) != 1 || len(vs.Values) != 1 {
+				continue
+			}
+			e := vs.Values[0]
+			if c, ok := e.(*ast.CallExpr); ok && len(c.Args) == 1 {
+				e = c.Args[0]
+			}
+			if bl, ok := e.(*ast.BasicLit); ok && bl.Kind == token.INT {
+				vals[vs.Names[0].Name] = bl.Value
+			}
+		}
+	}
+	var b strings.Builder
+	for _, n := range names {
+		if v, ok := vals[n]; ok {
+			fmt.Fprintf(&b, "def %s%s : Nat := %s\n", prefix, n, v)
+		} else {
+			fmt.Fprintf(&b, "def %s%s : Unit := ()  -- constant not found as an integer literal\n", prefix, n)
+		}
+	}
+	return b.String()
 }
